@@ -93,7 +93,7 @@ def run(rep, tier, seed):
                 for tname in e["targets"]: pairs.append((tname, e["from"]))
             # a define whose right-hand side reads PART of a variable (x.a, x.1, x[i], [x]; the probe family (b) `~zzaK := <such a source>`
             # and the program's own statements): on the pinned tree it shares storage with that variable
-            if e["ok"] and e.get("bases") and e["kind"] in ("Define", "Destructure"):
+            if e["ok"] and e.get("bases") and e["kind"] in ("Define", "Destructure", "OpAssign"):      # OpAssign: only `table += record`
                 for tname in e["targets"]:
                     for b in e["bases"]: subpairs.append((tname, b))
         comp = closure(pairs + subpairs)
